@@ -114,7 +114,7 @@ class Translator:
     def nitem(self, n) -> str:
         if type(n) is not G.NamedItem:
             raise Untranslatable(f"expected NamedItem, got {type(n).__name__}")
-        return f"(NItem {copt(n.name, cstr)} {copt(n.type, cstr)} {self.item(n.item)})"
+        return f"(NItem {cN(self.nid(n))} {copt(n.name, cstr)} {copt(n.type, cstr)} {self.item(n.item)})"
 
     def rule(self, r) -> str:
         return (f"{{| rname := {cstr(r.name)}; rtype := {copt(r.type, cstr)}; "
